@@ -1337,6 +1337,48 @@ fn dispatch(name: &str, a: &mut Args) -> String {
 			let (k, n) = (a.u8(), a.u8());
 			format!("{}", lightning::ln::msgs::verif_hooks::socket_address_len(k, n))
 		},
+		"final_onion_payload_order" => {
+			// <blinded> <keysend> <invreq> <n> <type>*3 -> "1" iff the written payload is a TLV stream with strictly
+			// increasing types that carries every requested record (the first <n> of the three types are used)
+			let (blinded, keysend, invreq, n) = (a.bool(), a.bool(), a.bool(), a.usize());
+			let ts = [a.u64(), a.u64(), a.u64()];
+			let custom: Vec<(u64, Vec<u8>)> = ts[..n.min(3)].iter().map(|t| (*t, vec![0xab, 0xcd])).collect();
+			let bytes = lightning::ln::msgs::verif_hooks::final_onion_payload_bytes(blinded, &custom, keysend, invreq);
+			fn bigsize(b: &[u8], p: &mut usize) -> Option<u64> {
+				let f = *b.get(*p)?;
+				let (len, v) = match f {
+					0xff => (9, u64::from_be_bytes(b.get(*p + 1..*p + 9)?.try_into().ok()?)),
+					0xfe => (5, u32::from_be_bytes(b.get(*p + 1..*p + 5)?.try_into().ok()?) as u64),
+					0xfd => (3, u16::from_be_bytes(b.get(*p + 1..*p + 3)?.try_into().ok()?) as u64),
+					_ => (1, f as u64),
+				};
+				*p += len;
+				Some(v)
+			}
+			let mut p = 0usize;
+			let total = bigsize(&bytes, &mut p).expect("length prefix");
+			assert_eq!(p + total as usize, bytes.len(), "length prefix does not cover the stream");
+			let mut types = Vec::new();
+			let mut ok = true;
+			while p < bytes.len() {
+				let t = bigsize(&bytes, &mut p).expect("type");
+				let l = bigsize(&bytes, &mut p).expect("length") as usize;
+				p += l;
+				if let Some(prev) = types.last() {
+					if *prev >= t {
+						ok = false;
+					}
+				}
+				types.push(t);
+			}
+			ok &= p == bytes.len();
+			for (t, _) in custom.iter() {
+				ok &= types.contains(t);
+			}
+			ok &= !keysend || types.contains(&5482373484);
+			ok &= !(blinded && invreq) || types.contains(&77_777);
+			format!("{}", ok as u8)
+		},
 		"revoked_htlc_claim_amount" => {
 			let (amt, offered) = (a.u64(), a.bool());
 			let (s, v) = lightning::verif::package::revoked_htlc_claim_amount(amt, offered);
